@@ -50,10 +50,20 @@ def EventWF (P : Prog) : Event → Prop
 /-- Annotations of function `f` (empty if `A` has no entry). -/
 def annsOf (A : Array Anns) (f : Nat) : Anns := A.getD f #[]
 
+/-- Does the function re-enter itself with `TailCall(true)`? (The only instruction that reads a
+frame's `captures_count`.) -/
+def Function.selfTail (fn : Function) : Bool := fn.instructions.toList.contains (.tailCall true)
+
+/-- The frame's `captures_count` is its function's `captures` — required only where it is read:
+in a function that contains `TailCall(true)`. (A REPL continuation line runs with
+`captures_count = 0` in a function certified with its entry locals as captures; it cannot contain a
+bare `^`.) -/
+def CapsOK (g : Frame) (fn : Function) : Prop := fn.selfTail = true → g.capturesCount = fn.captures
+
 /-- Frame `g` is at an annotated pc of its function. -/
 structure FrameAt (P : Prog) (A : Array Anns) (g : Frame) (fn : Function) (a : Ann) (i : Instr) : Prop where
   hfn : P.functions[g.functionIndex]? = some fn
-  hcc : g.capturesCount = fn.captures
+  hcc : CapsOK g fn
   hann : (annsOf A g.functionIndex)[g.counter]? = some (some a)
   hinstr : fn.instructions[g.counter]? = some i
 
@@ -144,7 +154,7 @@ captures, its argument on top of an arbitrary (well-formed) stack, at least `cap
 (well-formed) locals above the frame's base. `Proc.spawn` produces such a state. -/
 structure EntryWF (P : Prog) (s0 : Nat) (p : Proc) : Prop where
   frame : ∃ f fn, p.frames = [f] ∧ f.counter = 0 ∧ P.functions[f.functionIndex]? = some fn ∧
-    f.capturesCount = fn.captures ∧ f.localsBase + fn.captures ≤ p.locals.length
+    CapsOK f fn ∧ f.localsBase + fn.captures ≤ p.locals.length
   stack : p.stack.length = s0 + 1
   stackWF : AllWF P p.stack
   localsWF : AllWF P p.locals
